@@ -24,7 +24,9 @@ INTS = ['explicit', 'rk2', 'rk2_heun', 'rk3_heun', 'rk3ssp', 'rk4', 'lsrk25bb', 
 
 
 def layers(ctx):
-    return [layer_rhs1d, layer_bcker_euler, layer_int]
+    from layers.fvm2d import layer_rhs2d, layer_mesh2d
+    from layers.kern import layer_bcker_euler2d
+    return [layer_rhs1d, layer_bcker_euler, layer_int, layer_mesh2d, layer_bcker_euler2d, layer_rhs2d]
 
 
 def matching_bc(name, g, W, side):
@@ -128,18 +130,22 @@ def oracle(ctx, seeds=None):
         n = cfg['nx'] * cfg['ny']; g = cfg['gamma']
         r = gens.loguni(rng, 0.1, 10); p = gens.loguni(rng, 0.1, 10); M = float(rng.choice([0.0, 0.4, 0.9, 1.8])); th = rng.uniform(0, 2 * np.pi)
         c = np.sqrt(g * p / r)
-        if i % 2 == 1:   # flow along +x: matching inlet left / outlet right, walls or periodic top/bottom
-            th = 0.0
+        if i % 2 == 1:   # flow along +x, -x, +y or -y: matching inlet on the upstream side / outlet opposite, walls or periodic laterally
+            side = [('left', 'right', 0.0), ('right', 'left', np.pi), ('bottom', 'top', np.pi / 2), ('top', 'bottom', -np.pi / 2)][(i // 2) % 4]
+            th = side[2]
             f_ = 1 + .5 * (g - 1) * M * M
             inl = {'type': 'insub' if M < 1 else 'insup', 'ptot': p * f_ ** (g / (g - 1)), 'rttot': p / r * f_, 'p': p}
             outl = {'type': 'outsub' if M < 1 else 'outsup', 'p': p}
             tb = {'type': str(rng.choice(['per', 'sym']))}
-            cfg['bc'] = {'left': inl, 'right': outl, 'top': tb, 'bottom': dict(tb)}
+            lat = ('top', 'bottom') if side[0] in ('left', 'right') else ('left', 'right')
+            cfg['bc'] = {side[0]: inl, side[1]: outl, lat[0]: tb, lat[1]: dict(tb)}
             if M == 0.0:
                 cfg['bc'] = {t: {'type': 'sym'} for t in ('left', 'right', 'top', 'bottom')}
         if i % 4 == 3:   # oblique supersonic stream: matching insup (with its angle) on two inflow sides, outsup on the others
             M = float(rng.choice([1.3, 1.8, 2.5])); c = np.sqrt(g * p / r)
-            deg = float(rng.choice([30.0, -20.0, 45.0, 60.0, -37.5, 10.0, 135.0, 200.0, rng.uniform(0, 360)])); th = np.deg2rad(deg)
+            deg = float(rng.choice([30.0, -20.0, 45.0, 60.0, -37.5, 10.0, 135.0, 200.0, 0.0, 0.0, 90.0, 180.0, -90.0, 270.0, rng.uniform(0, 360)])); th = np.deg2rad(deg)
+            if deg in (0.0, 90.0, 180.0, -90.0, 270.0):
+                th = np.deg2rad(deg); th = float(np.arctan2(np.round(np.sin(th)), np.round(np.cos(th))))     # exact axis directions
             f_ = 1 + .5 * (g - 1) * M * M
             inl = {'type': 'insup', 'ptot': p * f_ ** (g / (g - 1)), 'rttot': p / r * f_, 'p': p, 'angle': deg}
             outl = {'type': 'outsup'}
